@@ -206,7 +206,7 @@ struct VecAdapter {
     const V &v = cref(p);
     out.clear();
     size_t n = (size_t)v.size();
-    if (n > (size_t)v.capacity() || n > (1u << 20)) { err = "size() exceeds capacity()"; return false; }
+    if (n > (size_t)v.capacity() || n > (1u << 23)) { err = "size() exceeds capacity()"; return false; }
     const T *d = v.data();
     for (size_t i = 0; i < n; ++i) {
       int st = ElemIO<T>::state(d[i]);
@@ -436,6 +436,7 @@ struct VecAdapter {
         uint64_t moves0 = G.opElemEv[EV_MOVE_CTOR];
         for (size_t i = 0; i < x.size(); ++i) {
           unsigned ev0 = G.opAllocCalls + G.opReallocCalls; uint64_t inpl0 = G.reallocInPlace; size_t sz0 = (size_t)v.size();
+          size_t cap0 = (size_t)v.capacity();
           g_reallocExpect.known = true; g_reallocExpect.n = 1; g_reallocExpect.sizes[0] = sz0;
           unsigned how = op.variant % 8 == 0 ? (unsigned)(i % 3) : op.variant % 8 + 2;  // one method per loop, or the push/emplace mix
           switch (how) {
@@ -457,6 +458,11 @@ struct VecAdapter {
           if (G.opAllocCalls + G.opReallocCalls != ev0) {
             ++res.growEvents;
             if (G.reallocInPlace == inpl0) res.relocs += sz0;
+            // every single growth step is by the constant factor (unless the size_type limits it)
+            size_t cap1 = (size_t)v.capacity();
+            uint64_t want = (3ull * cap0) / 2;
+            if (want > (uint64_t)std::numeric_limits<S>::max()) want = (uint64_t)std::numeric_limits<S>::max();
+            if (cap0 && cap1 > cap0 && cap1 < want && !res.growBadFrom) { res.growBadFrom = cap0; res.growBadTo = cap1; }
           }
           ++res.appended;
         }
